@@ -54,7 +54,7 @@ def pp(e, arg_names=None, depth=0):
     if k == "const":
         return str(e[1])
     if k == "cast":
-        return "(%s as %s)" % (r(e[1]), e[2] if len(e) > 2 else "?")
+        return "(%s as %s)" % (r(e[2]), e[1])
     if k == "agg":
         nm = e[2][0] if isinstance(e[2], tuple) else e[2]
         var = e[2][1] if isinstance(e[2], tuple) and len(e[2]) > 1 else None
@@ -70,7 +70,7 @@ def pp(e, arg_names=None, depth=0):
 def subst_upvars(e, upvars, depth=0):
     """replace reads of closure captures (fields of the closure environment, argument 1) by the
     captured expressions of the parent body"""
-    if not isinstance(e, tuple) or depth > 60:
+    if not isinstance(e, tuple) or not e or depth > 60:
         return e
     if e[0] == "field" and isinstance(e[1], tuple):
         base = e[1]
@@ -104,10 +104,32 @@ def return_cases(body, upvars=(), arg_names=None, depth=14):
     for bi, t in body.terms("call"):
         d = t.get("dest")
         if d and d["l"] == 0 and not d["proj"]:
-            defs.append((t.get("target", bi), body.expr_of_call(t, depth, None)))
+            defs.append((bi, body.expr_of_call(t, depth, None)))
     for bi, e in defs:
         conds = []
         for ex, lo, hi in panics.dominating_conditions(body, bi):
             conds.append("%s in [%s,%s]" % (pp(subst_upvars(ex, upvars), arg_names), lo, hi))
         out.append((tuple(sorted(set(conds))), pp(subst_upvars(e, upvars), arg_names)))
     return sorted(out)
+
+
+def edge_conds(body, block, arg_names=None, upvars=(), depth=10):
+    """Structural guards of `block`: for every switch that dominates it and through only some of whose
+    edges it can be reached, (discriminant rendering, tuple of edge labels taken).  No stability
+    filtering: the discriminant is rendered as evaluated at the switch."""
+    out = []
+    for d in sorted(body.dominators().get(block, ())):
+        t = body.blocks[d]["term"]
+        if t["k"] != "switch" or d == block:
+            continue
+        edges = [(str(v), tb) for v, tb in t["values"]] + [("else", t["otherwise"])]
+        edges = [(lab, tb) for lab, tb in edges if body.blocks[tb]["term"]["k"] != "unreachable"]
+        via = [lab for lab, tb in edges if tb == block or body.can_reach(tb, block, avoid=(d,))]
+        if len(via) == len(edges):
+            continue
+        if "else" in via and len(edges) - len(via) >= 1:
+            # name the else edge by the values it excludes
+            excl = sorted(lab for lab, tb in edges if lab not in via)
+            via = [v for v in via if v != "else"] + (["1"] if t.get("discr_ty") == "bool" and excl == ["0"] else ["not{%s}" % ",".join(excl)])
+        out.append((pp(subst_upvars(body.expr_of_operand(t["discr"], depth), upvars), arg_names), tuple(sorted(via))))
+    return out
